@@ -112,6 +112,9 @@ func (c *ColArr[T]) DecodeColumn(r *Reader, rows int) error {
 	if err := checkRows(size); err != nil {
 		return errors.Wrap(err, "array size")
 	}
+	if err := checkOffsets(c.Offsets); err != nil {
+		return errors.Wrap(err, "offsets")
+	}
 	if err := c.Data.DecodeColumn(r, size); err != nil {
 		return errors.Wrap(err, "decode data")
 	}
@@ -158,4 +161,17 @@ func (c *ColArr[T]) Result(column string) ResultColumn {
 // Results return Results containing single column.
 func (c *ColArr[T]) Results(column string) Results {
 	return Results{c.Result(column)}
+}
+
+// checkOffsets checks that cumulative offsets never decrease, so that every
+// row [offsets[i-1], offsets[i]) lies within the offsets[last] decoded elements.
+func checkOffsets(offsets ColUInt64) error {
+	var prev uint64
+	for i, off := range offsets {
+		if off < prev {
+			return errors.Errorf("offset [%d] = %d is less than previous offset %d", i, off, prev)
+		}
+		prev = off
+	}
+	return nil
 }
